@@ -20,6 +20,7 @@ from .e1_srcmodel import qualname_of
 from .c09_terms import World, Unsup, is_tag, is_const, subterms, contains, show, NONE, ZEROS, EMPTY
 from .c09_blocks import norm as bnorm, fragile, Facts, length_of, _lin_parts
 from .c09_chunks import expand_calls, search
+from .c09_facts import consistent, unfollowed, soft, diff_pairs, phi_conditions
 from .c09_run import (explore, join_index, live_in, compatible, equal_mod_alloc, diff_text, resolve, mode_atoms, extend_join, first_use, tail_test,
                       READ, MAYREAD)
 
@@ -617,131 +618,292 @@ def _empty_read(sim):
     return [o for o in sim.heap.values() if o.init == EMPTY and o.init_reads]
 
 
+class _Collected:
+    """what one comparison of the parallel with the serial paths of an entry function found (kept apart so that a comparison can be repeated on
+    a normalised exploration and only one of the two is reported)"""
+
+    def __init__(self):
+        self.adds, self.undecided, self.errors, self.notes = [], set(), [], []
+
+    def add(self, text, ok, node=None, detail=None, nontrivial=True):
+        self.adds.append((text, ok, node, detail, nontrivial))
+
+    def error(self, text, node=None, detail=None):
+        self.errors.append((text, node, detail))
+
+    def note(self, text):
+        self.notes.append(text)
+
+    def clean(self):
+        return all(a[1] for a in self.adds) and not self.undecided and not self.errors
+
+    def emit(self, ctx, ag, undecided):
+        for a in self.adds:
+            ag.add(*a)
+        undecided |= self.undecided
+        for e in self.errors:
+            ctx.error(*e)
+        for n in self.notes:
+            ctx.note(n)
+
+    def not_decided(self, why):
+        """every failed comparison is reported as not decided (the exploration it comes from was not a complete one)"""
+        for text, ok, node, detail, nt in self.adds:
+            if not ok:
+                self.undecided.add((text + ": not decided - " + why, node))
+        self.adds = [a for a in self.adds if a[1]]
+
+
+def _entry_leaves(world, rel, q):
+    fn = world.func(rel, q)
+    if fn is None:
+        raise AnchorError(f"function {q} not found in {rel}")
+    K = join_index(world, rel, fn)
+    leaves = explore(world, rel, q, K)
+    K2 = extend_join(fn, K, leaves)
+    if K2 != K:
+        K = K2
+        leaves = explore(world, rel, q, K)
+    if not leaves:
+        raise Unsup(f"{q}: no live path")
+    return fn, K, live_in(fn.body[K + 1:], set()), leaves
+
+
+def _assume(sim, assign, c, val):
+    """the decisions `assign` extended by "test c comes out as val"; None when that contradicts them"""
+    out = dict(assign)
+
+    def go(t, v):
+        if is_tag(t, "bool"):
+            if (t[1] == "And") == v:          # `a and b` true, `a or b` false: every part
+                return all(go(x, v) for x in t[2:])
+            return True                       # one of the parts: not expressed (the conditional stays merged)
+        if is_tag(t, "not") and is_tag(t[1], "bool"):
+            return go(t[1], not v)
+        atom, pol = sim.norm_atom(t)
+        if pol is None:
+            return bool(atom) == v
+        if is_tag(atom, "bool"):
+            return go(atom, v if pol else not v)
+        want = v if pol else not v
+        saved, sim.assign = sim.assign, out
+        try:
+            k = sim.known(atom)
+        finally:
+            sim.assign = saved
+        if k is not None:
+            return k == want
+        out[atom] = want
+        return True
+
+    if not go(c, val) or not consistent(out):
+        return None
+    # decisions made on values that were merged: what they say once the merged value is known
+    saved, sim.assign = sim.assign, out
+    try:
+        for a, v in list(out.items()):
+            if any(is_tag(x, "phi") for x in subterms(a)):
+                r = sim.resolve(a)
+                if r != a:
+                    k = sim.try_decided(r[1]) if is_tag(r, "truth") else sim.try_decided(r)
+                    if k is not None and k != v:
+                        return None
+    finally:
+        sim.assign = saved
+    return out
+
+
+def _judge(p, s, rp, rs, up, us, depth=0):
+    """compare what the parallel path p and the serial path s leave in one variable -> ("equal" | "definite" | "open", detail).
+    Conditionals that are still merged where the trees differ are expanded first: both outcomes of the test, each under the decisions of the
+    two paths.  A difference is definite only between trees that were followed completely."""
+    vp, vs = p.term(rp, up), s.term(rs, us)
+    tol = []
+    if equal_mod_alloc(vp, vs, tol):
+        if tol and (_empty_read(p.sim) or _empty_read(s.sim)):
+            return "definite", {"parallel": "an array that is read before it is filled is allocated with " + show(tol[0][0]),
+                                "serial": "allocated with " + show(tol[0][1])}
+        return "equal", None
+    pairs = []
+    diff_pairs(vp, vs, pairs)
+    conds = [c for a, b in pairs for c in phi_conditions(a) + phi_conditions(b)]
+    if conds and depth < 6:
+        res = []
+        for val in (True, False):
+            up2, us2 = _assume(p.sim, up, conds[0], val), _assume(s.sim, us, conds[0], val)
+            if up2 is None or us2 is None or up2 == up and us2 == us:
+                continue
+            res.append(_judge(p, s, rp, rs, up2, us2, depth + 1))
+        if res:
+            if all(r[0] == "equal" for r in res):
+                return "equal", None
+            return next((r for r in res if r[0] == "definite"), next(r for r in res if r[0] != "equal"))
+    left = sorted(set(unfollowed(vp) + unfollowed(vs) + [f for a in list(up) + list(us) for f in unfollowed(a)]) -
+                  set(getattr(p.sim.world, "keep_opaque", ())))
+    if left:
+        return "open", "the helper(s) " + ", ".join(left) + " were not followed where the trees differ or in the conditions of the paths"
+    if any(soft(a) or soft(b) for a, b in pairs):
+        return "open", "the trees differ in a merged conditional, a starred sequence or a value the evaluator does not know: " + \
+            str(diff_text(vp, vs))[:600]
+    return "definite", diff_text(vp, vs)
+
+
+def _compare_entry(world, q, rel, fn, K, live, leaves):
+    """C09-R5 for one entry function, on one exploration of it"""
+    out = _Collected()
+    ag = out
+    undecided = out.undecided
+    P = [lf for lf in leaves if lf.parallel]
+    S = [lf for lf in leaves if not lf.parallel]
+    if not P or not S:
+        raise AnchorError(f"{q}: parallel and serial paths ({len(P)} / {len(S)})")
+    # the tests that tell the parallel mode from the serial mode: decided on every path, one way on all parallel paths, the other way on all
+    # serial paths
+    mode = mode_atoms(leaves)
+    if not mode:
+        raise Unsup(f"{q}: no single test separates the parallel paths from the serial paths")
+    for p in P:
+        ws = "/".join(sorted({wname(L) for L in p.sim.launches})) or "in-process tasks"
+        if any(multi_index(p.sim, L) for L in p.sim.launches):
+            undecided.add((f"{q}: the tasks {ws} own several indices each in a way the analysis does not recognise as consecutive blocks of one "
+                           "edge sequence: what they compute together is not compared with the serial loop", fn))
+            continue
+        partners = [s for s in S if compatible(_drop(p.assign, mode), _drop(s.assign, mode))]
+        if not partners:
+            out.error(f"{q}: no serial path runs under the conditions of the parallel path with {ws}", fn,
+                      [f"{show(a)[:80]} = {v}" for a, v in p.sim.decisions][:12])
+            continue
+        for s in partners:
+            union = _drop(s.assign, mode)
+            union.update(_drop(p.assign, mode))
+            up, us = dict(union), dict(union)
+            up.update({k: v for k, v in p.assign.items() if k in mode})
+            us.update({k: v for k, v in s.assign.items() if k in mode})
+            if (p.ret is None) != (s.ret is None):
+                ag.add(f"{q}: the parallel path with {ws} and the serial path leave the function at the same place", False, fn)
+                continue
+            ub_p = {(f_, n_) for c, nd, n_, f_ in p.sim.unbound_locals}
+            ub_s = {(f_, n_) for c, nd, n_, f_ in s.sim.unbound_locals}
+            for f_, n_ in sorted(ub_p ^ ub_s):
+                nd = next(nd for c, nd, n2, f2 in p.sim.unbound_locals + s.sim.unbound_locals if (f2, n2) == (f_, n_))
+                ag.add(f"{f_}: local `{n_}` is bound before it is read", False, nd,
+                       "read before assignment on the " + ("parallel" if (f_, n_) in ub_p else "serial") + " path only: UnboundLocalError there")
+            if ub_p & ub_s:
+                raise Unsup(f"{q}: local {sorted(ub_p & ub_s)[0][1]} is read before it is bound on the parallel and on the serial path")
+            names = ["<return value>"] if p.ret is not None else sorted(live)
+            other_ok = True
+            for n in names:
+                if n == "<return value>":
+                    rp, rs = p.ret, s.ret
+                else:
+                    rp, rs = p.fr.locals.get(n), s.fr.locals.get(n)
+                if rp is None and rs is None:
+                    continue
+                if rp is None or rs is None:
+                    if n in world.mods[rel].imports or n in world.mods[rel].funcs:
+                        continue
+                    # judged on the path that lacks the binding: does the code after the split read the name there before it rebinds it?
+                    lack = p if rp is None else s
+                    use = first_use(fn.body[K + 1:], n, lambda t, lf=lack, a=(up if rp is None else us): tail_test(lf, t, a, fn.body[K + 1:]))
+                    txt = f"{q}: `{n}`, which the code after the parallel/serial split reads, is bound on the paths on which it is read [{ws}]"
+                    if use == READ:
+                        ag.add(txt, False, fn, "unbound on the " + ("parallel" if rp is None else "serial") + " path, where the code after the "
+                               "split reads it before any assignment: NameError / UnboundLocalError there")
+                    elif use == MAYREAD:
+                        undecided.add((txt + ": unbound on the " + ("parallel" if rp is None else "serial") + " path, where a read that depends "
+                                       "on tests the analysis does not decide may come first", fn))
+                    continue
+                shp_p, shp_s = _shapes(p, rp, up), _shapes(s, rs, us)
+                for k in sorted(set(shp_p) & set(shp_s)):
+                    ok = shp_p[k] == shp_s[k]
+                    ag.add(f"{q}: `{n}{k}` has the same shape after the parallel arm ({ws}) and after the serial arm", ok,
+                           p.sim.launches[0].node if p.sim.launches else fn,
+                           None if ok else {"parallel": show(shp_p[k])[:300], "serial": show(shp_s[k])[:300]})
+                vp, vs = p.term(rp, up), s.term(rs, us)
+                if any(is_tag(x, "poison") for x in subterms(vp)) or any(is_tag(x, "poison") for x in subterms(vs)):
+                    raise Unsup(f"{q}: `{n}` is read after the split but is a loop-local of one arm")
+                verdict, why = _judge(p, s, rp, rs, up, us)
+                key_obj = _has_shared(p.sim, rp)
+                if key_obj:
+                    txt = (f"{q}: `{n}` computed by the tasks {ws} (under the bindings made by initializer/initargs) is the expression tree the "
+                           "serial loop computes => bit-identical")
+                    nd = p.sim.launches[0].node if p.sim.launches else fn
+                else:
+                    txt, nd = f"{q}: local `{n}` has the same value after the parallel arm ({ws}) and after the serial arm", fn
+                if verdict == "equal":
+                    if key_obj:
+                        ag.add(txt, True, nd)
+                elif verdict == "definite":
+                    other_ok = other_ok and key_obj
+                    ag.add(txt, False, nd, why)
+                else:
+                    # the trees differ, but not both were followed completely: no verdict
+                    other_ok = other_ok and key_obj
+                    undecided.add((txt + ": not decided - " + str(why), nd))
+            ag.add(f"{q}: the other locals read after the split agree between the parallel arm ({ws}) and the serial arm", other_ok, fn,
+                   nontrivial=False)
+            # iteration space
+            for L in p.sim.launches:
+                loops = [lfm for lfm, st, c in s.sim.loops if c[0] == "parent" and lfm.count is not None
+                         and any(lfm.fid in e.frames for e in s.sim.events)]
+                outer = [l for l in loops if not any(l2.fid != l.fid and any(l2.fid in e.frames and l.fid in e.frames and
+                                                                          e.frames.index(l2.fid) < e.frames.index(l.fid) for e in s.sim.events)
+                                                      for l2 in loops)]
+                for lo in outer:
+                    a, b = p.term(L.count, up) if L.count is not None else None, s.term(lo.count, us)
+                    if a is None:
+                        continue
+                    if L.block is not None:
+                        B = L.block
+                        f0, fn_, exp = p.term(B.F0, up), (None if B.Fn is None else p.term(B.Fn, up)), bnorm(b)
+                        t0 = f"{q}: the first block of {wname(L)} starts at index 0"
+                        t1 = f"{q}: the last block of {wname(L)} ends exactly at the number of indices of the serial loop"
+                        if f0 == ("c", "int", 0):
+                            ag.add(t0, True, L.node)
+                        elif is_const(f0):
+                            ag.add(t0, False, L.node, show(f0))
+                        else:
+                            undecided.add((t0 + f": not decided, F(0) = {show(f0)[:200]}", L.node))
+                        if fn_ is not None and fn_ == exp and f0 == ("c", "int", 0):
+                            ag.add(t1, True, L.node)
+                        elif fn_ is not None and fragile(fn_, exp, B.facts):
+                            ag.add(t1, False, L.node, fragile(fn_, exp, B.facts))
+                        else:
+                            undecided.add((t1 + f": not decided, F(number of tasks) = {show(fn_)[:200] if fn_ is not None else '?'}, "
+                                                f"serial loop: {show(exp)[:80]}", L.node))
+                        continue
+                    if a == b:
+                        ag.add(f"{q}: the tasks of {wname(L)} and the serial loop run over the same index range", True, L.node)
+                    elif comparable_diff(a, b):
+                        ag.add(f"{q}: the tasks of {wname(L)} and the serial loop run over the same index range", False, L.node,
+                               {"tasks": show(a)[:200], "serial": show(b)[:200]})
+                    else:
+                        out.note(f"{q}: task range {show(a)[:60]} and serial range {show(b)[:60]} not compared")
+    return out
+
+
 def r5_serial_equals_worker(ctx):
     an = analysis(ctx)
     ag = Agg(ctx)
     undecided = set()
     for q, (rel, fn, K, live, leaves) in an.entries.items():
-        P = [lf for lf in leaves if lf.parallel]
-        S = [lf for lf in leaves if not lf.parallel]
-        if not P or not S:
-            raise AnchorError(f"{q}: parallel and serial paths ({len(P)} / {len(S)})")
-        # the tests that tell the parallel mode from the serial mode: decided on every path, one way on all parallel paths, the other way on all
-        # serial paths
-        mode = mode_atoms(leaves)
-        if not mode:
-            raise Unsup(f"{q}: no single test separates the parallel paths from the serial paths")
-        for p in P:
-            ws = "/".join(sorted({wname(L) for L in p.sim.launches})) or "in-process tasks"
-            if any(multi_index(p.sim, L) for L in p.sim.launches):
-                undecided.add((f"{q}: the tasks {ws} own several indices each in a way the analysis does not recognise as consecutive blocks of one "
-                               "edge sequence: what they compute together is not compared with the serial loop", fn))
-                continue
-            partners = [s for s in S if compatible(_drop(p.assign, mode), _drop(s.assign, mode))]
-            if not partners:
-                ctx.error(f"{q}: no serial path runs under the conditions of the parallel path with {ws}", fn,
-                          [f"{show(a)[:80]} = {v}" for a, v in p.sim.decisions][:12])
-                continue
-            for s in partners:
-                union = _drop(s.assign, mode)
-                union.update(_drop(p.assign, mode))
-                up, us = dict(union), dict(union)
-                up.update({k: v for k, v in p.assign.items() if k in mode})
-                us.update({k: v for k, v in s.assign.items() if k in mode})
-                if (p.ret is None) != (s.ret is None):
-                    ag.add(f"{q}: the parallel path with {ws} and the serial path leave the function at the same place", False, fn)
-                    continue
-                ub_p = {(f_, n_) for c, nd, n_, f_ in p.sim.unbound_locals}
-                ub_s = {(f_, n_) for c, nd, n_, f_ in s.sim.unbound_locals}
-                for f_, n_ in sorted(ub_p ^ ub_s):
-                    nd = next(nd for c, nd, n2, f2 in p.sim.unbound_locals + s.sim.unbound_locals if (f2, n2) == (f_, n_))
-                    ag.add(f"{f_}: local `{n_}` is bound before it is read", False, nd,
-                           "read before assignment on the " + ("parallel" if (f_, n_) in ub_p else "serial") + " path only: UnboundLocalError there")
-                if ub_p & ub_s:
-                    raise Unsup(f"{q}: local {sorted(ub_p & ub_s)[0][1]} is read before it is bound on the parallel and on the serial path")
-                names = ["<return value>"] if p.ret is not None else sorted(live)
-                other_ok = True
-                for n in names:
-                    if n == "<return value>":
-                        rp, rs = p.ret, s.ret
-                    else:
-                        rp, rs = p.fr.locals.get(n), s.fr.locals.get(n)
-                    if rp is None and rs is None:
-                        continue
-                    if rp is None or rs is None:
-                        if n in an.world.mods[rel].imports or n in an.world.mods[rel].funcs:
-                            continue
-                        # judged on the path that lacks the binding: does the code after the split read the name there before it rebinds it?
-                        lack = p if rp is None else s
-                        use = first_use(fn.body[K + 1:], n, lambda t, lf=lack, a=(up if rp is None else us): tail_test(lf, t, a, fn.body[K + 1:]))
-                        txt = f"{q}: `{n}`, which the code after the parallel/serial split reads, is bound on the paths on which it is read [{ws}]"
-                        if use == READ:
-                            ag.add(txt, False, fn, "unbound on the " + ("parallel" if rp is None else "serial") + " path, where the code after the "
-                                   "split reads it before any assignment: NameError / UnboundLocalError there")
-                        elif use == MAYREAD:
-                            undecided.add((txt + ": unbound on the " + ("parallel" if rp is None else "serial") + " path, where a read that depends "
-                                           "on tests the analysis does not decide may come first", fn))
-                        continue
-                    shp_p, shp_s = _shapes(p, rp, up), _shapes(s, rs, us)
-                    for k in sorted(set(shp_p) & set(shp_s)):
-                        ok = shp_p[k] == shp_s[k]
-                        ag.add(f"{q}: `{n}{k}` has the same shape after the parallel arm ({ws}) and after the serial arm", ok,
-                               p.sim.launches[0].node if p.sim.launches else fn,
-                               None if ok else {"parallel": show(shp_p[k])[:300], "serial": show(shp_s[k])[:300]})
-                    vp, vs = p.term(rp, up), s.term(rs, us)
-                    if any(is_tag(x, "poison") for x in subterms(vp)) or any(is_tag(x, "poison") for x in subterms(vs)):
-                        raise Unsup(f"{q}: `{n}` is read after the split but is a loop-local of one arm")
-                    tol = []
-                    ok = equal_mod_alloc(vp, vs, tol)
-                    if ok and tol and (_empty_read(p.sim) or _empty_read(s.sim)):
-                        ok = False
-                    key_obj = _has_shared(p.sim, rp)
-                    if key_obj:
-                        ag.add(f"{q}: `{n}` computed by the tasks {ws} (under the bindings made by initializer/initargs) is the expression tree the "
-                               "serial loop computes => bit-identical", ok, p.sim.launches[0].node if p.sim.launches else fn,
-                               None if ok else diff_text(vp, vs))
-                    elif not ok:
-                        other_ok = False
-                        ag.add(f"{q}: local `{n}` has the same value after the parallel arm ({ws}) and after the serial arm", False, fn, diff_text(vp, vs))
-                ag.add(f"{q}: the other locals read after the split agree between the parallel arm ({ws}) and the serial arm", other_ok, fn,
-                       nontrivial=False)
-                # iteration space
-                for L in p.sim.launches:
-                    loops = [lfm for lfm, st, c in s.sim.loops if c[0] == "parent" and lfm.count is not None
-                             and any(lfm.fid in e.frames for e in s.sim.events)]
-                    outer = [l for l in loops if not any(l2.fid != l.fid and any(l2.fid in e.frames and l.fid in e.frames and
-                                                                              e.frames.index(l2.fid) < e.frames.index(l.fid) for e in s.sim.events)
-                                                          for l2 in loops)]
-                    for lo in outer:
-                        a, b = p.term(L.count, up) if L.count is not None else None, s.term(lo.count, us)
-                        if a is None:
-                            continue
-                        if L.block is not None:
-                            B = L.block
-                            f0, fn_, exp = p.term(B.F0, up), (None if B.Fn is None else p.term(B.Fn, up)), bnorm(b)
-                            t0 = f"{q}: the first block of {wname(L)} starts at index 0"
-                            t1 = f"{q}: the last block of {wname(L)} ends exactly at the number of indices of the serial loop"
-                            if f0 == ("c", "int", 0):
-                                ag.add(t0, True, L.node)
-                            elif is_const(f0):
-                                ag.add(t0, False, L.node, show(f0))
-                            else:
-                                undecided.add((t0 + f": not decided, F(0) = {show(f0)[:200]}", L.node))
-                            if fn_ is not None and fn_ == exp and f0 == ("c", "int", 0):
-                                ag.add(t1, True, L.node)
-                            elif fn_ is not None and fragile(fn_, exp, B.facts):
-                                ag.add(t1, False, L.node, fragile(fn_, exp, B.facts))
-                            else:
-                                undecided.add((t1 + f": not decided, F(number of tasks) = {show(fn_)[:200] if fn_ is not None else '?'}, "
-                                                    f"serial loop: {show(exp)[:80]}", L.node))
-                            continue
-                        if a == b:
-                            ag.add(f"{q}: the tasks of {wname(L)} and the serial loop run over the same index range", True, L.node)
-                        elif comparable_diff(a, b):
-                            ag.add(f"{q}: the tasks of {wname(L)} and the serial loop run over the same index range", False, L.node,
-                                   {"tasks": show(a)[:200], "serial": show(b)[:200]})
-                        else:
-                            ctx.note(f"{q}: task range {show(a)[:60]} and serial range {show(b)[:60]} not compared")
+        res = _compare_entry(an.world, q, rel, fn, K, live, leaves)
+        if not res.clean():
+            # something differs (or is not decided) in the quick exploration, where helpers that only compute were left as terms in the parent
+            # while the tasks followed them: the comparison is repeated on an exploration that follows every helper on both sides (so that
+            # facts hidden in them - a table lookup that raises for other keys, an early return - belong to the paths); only that one counts
+            try:
+                w2 = World(ctx, [SRS, FDE])
+                w2.inline_all = True
+                # ... except the function whose result selects the mode: the comparison is between what the two modes compute for the same
+                # inputs otherwise, so the selector stays the one symbol both sides share (what it reports - `parallel`, `ncpu` - differs
+                # between the modes by design)
+                w2.keep_opaque = {f for a in mode_atoms(leaves) for f in unfollowed(a)}
+                fn2, K2, live2, leaves2 = _entry_leaves(w2, rel, q)
+                res = _compare_entry(w2, q, rel, fn2, K2, live2, leaves2)
+            except (Unsup, AnchorError, RecursionError) as e:
+                res.not_decided(f"the exploration that follows every helper could not be made ({e})")
+        res.emit(ctx, ag, undecided)
     ag.flush()
     for text, node in sorted(undecided, key=lambda x: x[0]):
         ctx.error(text, node, "undecided")
